@@ -70,6 +70,20 @@ def run_case(case, rec):
         rec.cmp(1, cell)
         return
 
+    # the same expression object compiled again for another order of the same variables (after the first compile)
+    if fn is not None and n >= 2:
+        V2 = list(reversed(V)) if n == 2 else V[1:] + V[:1]
+        try:
+            fn2 = AD.compile_hessian(e, b.variables(V2))
+            pt = case["points"][0]
+            j2, t2 = R.ref_jet(D, node, V2, pt, order=2)
+            got2 = np.asarray(fn2(B.point_array(V2, pt)), dtype=float)
+            rec.cmp(n * n, cell)
+            if got2.shape != (n, n) or not all(close(got2[i, k], j2.H[i, k], RTOL, max(t2.mag, t2.dmag))[0] for i in range(n) for k in range(n)):
+                bad("compile_hessian", "second-variable-order-on-same-expression:mismatch", pt, got=got2.tolist(), want=np.asarray(j2.H).tolist())
+        except Exception as ex:
+            bad("compile_hessian", "second-variable-order-raises:" + type(ex).__name__, ex=ex)
+
     nbad, worst = {}, {}
     for pt in case["points"]:
         j, t = R.ref_jet(D, node, V, pt, order=2)
